@@ -252,7 +252,7 @@ class C13(fw.Property):
                   "subprocesses with os._exit); I/O errors (as opposed to crashes) and two processes on one directory (lock file) are outside the model; crypto/cbor/filelock stubs.")
     rule = ("round 5: Respond events (protect with the request identifiers the last unprotect handed on: 4.01 of ReplayErrorWithEcho or a response; twice = observation) follow "
             "unprotects in crash_sweep/history/replay, the identifiers' can_reuse_nonce is compared after every event; store_error = _store raising OSError after 0..3 effects inside "
-            "protect / unprotect, then more operations, crash, reload (open finding, own signatures); echo_fresh = 3 oracle-only cases with the real secrets module. "
+            "protect / unprotect, then more operations, crash, reload (rolled back since /repo 304561f; own signatures C13:store-error:* should the defect return); echo_fresh = 3 oracle-only cases with the real secrets module. "
             "streams: kernels = the real new_sequence_number / post_seqnoincrease on a FilesystemSecurityContext subclass whose _store is a recording callback (failing when the "
             "bound to persist reaches a threshold) vs the definitions translated from source (Gen/oscore_seqno.v), and _replay_window_changed vs Gen/oscore_rwchanged.v (4 cases): counters at / around the persisted bound, chunk 0..10000, "
             "limits 0..10000, 2^40-1 +-2; crash_sweep = for chunk settings (10,10000),(1,4),(2,2),(3,100), each of the first store points, victim operation protect/seq/unprotect/stop, a crash after each "
@@ -266,7 +266,7 @@ class C13(fw.Property):
                     "translator translate/py2v.py + Lib/Py.v prelude for Gen/oscore_replay.v, and Model/C12.v for the request path (validated by C12 and by the unprotect events here)",
                     "OS contract: os.replace atomic, fsync durable; recording wrappers around aiocoap.oscore.os/tempfile/io/secrets",
                     "harness stubs for cbor2/cryptography(AES-CCM, HKDF)/filelock"]
-    assumptions = ["I/O errors raised by _store (as opposed to the process dying) are outside the property's crash-point quantifier; they are modelled (ProtectFails / UnprotectFails), excluded from the theorems by ev_ok / ev_ok2, and what the code does then is the open finding C13:store-error:*",
+    assumptions = ["I/O errors raised by _store are modelled as 'the file-system call fails before its effect' after 0..3 effects (ProtectFails / UnprotectFails; a failure reported after the rename took place, or errors inside _destroy, are not modelled)",
                    "chunk size parameters are non-negative (ev_ok); a negative chunk size lowers the persisted bound and is refuted by the model too",
                    "Echo values are unpredictable: a request carrying the current lifetime's Echo value was created in that lifetime, and the peer's numbers increase (echo_fresh)",
                    "I/O errors out of _store (as opposed to crashes) are outside the quantifier (DESIGN.md O4)"]
@@ -285,7 +285,7 @@ class C13(fw.Property):
         for k in range(56 if tier == "quick" else 1500): yield "kernels", self.gen_kernels(rng)
         # every load draws a fresh unpredictable Echo value (real secrets module, oracle only)
         for ends in (["stop", "kill", "stop"], ["kill", "kill"], ["protect+kill", "stop", "protect+kill"]): yield "echo_fresh", {"ends": ends}
-        # _store raising OSError instead of dying (known finding): what the code does afterwards, against the model
+        # _store raising OSError instead of dying: the callers roll back (fixed in /repo 304561f); what the code does afterwards, against the model
         for k in range(14 if tier == "quick" else 200): yield "store_error", self.gen_store_error(rng)
         quota = {"crash_sweep": 0.30, "history": 0.36, "replay": 0.22, "exhaustion": 0.12}
         sweep = None
@@ -752,7 +752,7 @@ class C13(fw.Property):
             out.append(one_event(idx, events[idx])); idx += 1
         proc = proc_obs() if ctx is not None else final_proc[0]
         res = {"trace": out, "temps": rec.temps(), "lock": os.path.exists(os.path.join(base, "lock")), "durable": rec.durable,
-               "proc": proc, "fs_anomalies": [] if rec.ever_failed else rec.anomalies}     # after an injected I/O error the consequences are judged on the trace
+               "proc": proc, "fs_anomalies": rec.anomalies}
         abandon()
         return res
 
@@ -852,7 +852,7 @@ class C13(fw.Property):
                 kind = a.split(":")[0].split(" ")[0]
                 v = ("C13:fs:" + kind, a); break
         if v is None: return None
-        # a history in which an injected I/O error came out of _store: the known finding (notes/C13.md round 5), under its own signatures
+        # a history in which an injected I/O error came out of _store: the defect fixed in /repo 304561f (rollback), under its own signatures should it return
         failed = [ev[0] for ev, t in zip(inp["events"], res["trace"]) if ev[0].endswith("_fails") and t[0] == ["exn", "OSError"]]
         if failed:
             replay_side = any(k in v[0] for k in ("accept", "replay", "window", "forgery", "reuse-offered", "response-nonce"))
